@@ -640,7 +640,7 @@ def interleaved_replay(case, seed):
 # ------------------------------------------------- chunk representations and object transport
 
 FORMS = ("bigendian", "strided", "negstride", "reused_buffer", "deepcopy_each", "pickle_each", "pickle_at",
-         "deepcopy_at")
+         "deepcopy_at", "refused_at")
 
 
 def _chunk_form(form, x, buf):
@@ -674,6 +674,12 @@ def _transport_run(ctx, chunks, form, at):
             if r[0] != "ok":
                 return r, None
             comp = r[1]
+        if form == "refused_at" and j == at:
+            # a chunk the computer documents it refuses (integer samples); the caller catches the error
+            # and carries on with the stream.  (If it is accepted the case is outside the property.)
+            rr = computers.call(comp.compute_chunk, np.arange(3, dtype=np.int16))
+            if rr[0] == "ok":
+                return ("skip",), None
         if k is None:
             break
         r = computers.call(comp.compute_chunk, _chunk_form(form, ctx.x[pos:pos + k], buf))
@@ -693,7 +699,9 @@ def _transport_one(ctx, n, chunks, form, at):
     ref = ctx.ref[n]
     case = ctx.case(chunks=chunks, form=form, at=at)
     st, got = _transport_run(ctx, chunks, form, at)
-    route = "object" if "copy" in form or "pickle" in form else "chunk"
+    route = "object" if "copy" in form or "pickle" in form else "refusal" if form == "refused_at" else "chunk"
+    if st[0] == "skip":
+        return None
     if st[0] != "ok":
         return core.violation(ctx.tags(n, what="exception", op="transport", form=form, route=route),
                               "chunks %r as %s: %s: %s" % (chunks, form, st[1], st[2]), case)
@@ -714,7 +722,8 @@ def transport_config(c, seed):
     handed over in another representation - non-native byte order, every-other-sample view, negative
     stride, the caller's single buffer that is overwritten after each call - or (b) the computer object
     itself is transported between calls: copy.deepcopy / pickle round trip before EVERY call, and before
-    exactly ONE call for every position (incl. before finalize).  Oracle: compute_full of the samples."""
+    exactly ONE call for every position (incl. before finalize), or (c) a chunk that the computer refuses
+    (integer samples) is offered before exactly one call.  Oracle: compute_full of the samples."""
     nt = c["Nt"]
     ctx = Ctx(dict(c, Nmax=nt), seed)
     if not ctx.in_domain:
@@ -889,7 +898,8 @@ def subchecks(tier, seed):
             "every composition of n in {Nt-1, Nt} through one live computer x {chunks in non-native byte "
             "order / as every-other-sample view / negative stride / in the caller's single buffer that is "
             "overwritten after every call; computer deep-copied or pickled and restored before every call; "
-            "before exactly one call, every position incl. finalize} vs compute_full",
+            "before exactly one call, every position incl. finalize; a refused integer chunk (error caught by the "
+            "caller) before exactly one call, every position} vs compute_full",
             axes=dict(forms=list(FORMS), Nt=ntr), replay=lambda case: transport_replay(case, seed), chunk=1,
             kind="explore"),
         core.SubCheck(
